@@ -27,6 +27,7 @@ const (
 func rulesC09(c *Ctx) {
 	c09Batch(c)
 	c09Round3(c)
+	c09Round4(c)
 	c09Envelope(c)
 	c.Explain = append(c.Explain,
 		"C09 (only authentic, correctly sequenced transactions execute, once) — decided: (a) decodeTx returns success only through: size guard (when a limit is configured) before decoding, envelope decode✓, SignedTransaction.Open✓ (= signature verification under transaction.SignatureContext, created WithChainSeparation, then body decode of exactly the signed blob), SanityCheck✓; the returned transaction is the one filled by Open; executeTx sets the signer from the verified envelope after decodeTx✓ and passes that transaction on; SetTxSigner is called only there and in simulation; (b) ExecuteTx is reachable only through AuthenticateTx✓ (or no handler / critical method; the set of critical methods is empty); (c) in AuthenticateAndPayFees every state write is dominated by the nonce-equality guard, the nonce is incremented exactly once and stored; writers of the nonce are confined; (d) PublicKey.Verify can return true only via the ed25519 verifier over PrepareSignerMessage(context,message) with strict small-order options; signature contexts are constant, pairwise distinct and prefix-free, none contains the chain separator; the chain context is set-once.",
